@@ -296,8 +296,28 @@ Record call_out (sc : scen) (t : tid) (lc : tlocal) (o : apiop) (w : world) (out
   cq_raw : stop_code (snd (api_fin (sc_env sc) lc o out)) = false ->
            forall x, w_raw w' x = raw_after sc t lc o (snd (api_fin (sc_env sc) lc o out)) (w_raw w) x;
   cq_can : forall c m f, o = AAcquire c m f -> got_guard o (snd (api_fin (sc_env sc) lc o out)) = true ->
-           can_all m (kleaves (shape_of sc c)) (w_raw w) = true
+           can_all m (kleaves (shape_of sc c)) (w_raw w) = true;
+  cq_clean : stop_code (snd (api_fin (sc_env sc) lc o out)) = false ->
+             exists evs, w_trace w' = evs ++ w_trace w /\ Forall clean_ev evs
 }.
+
+
+Lemma clean_nil w : exists evs, w_trace w = evs ++ w_trace w /\ Forall clean_ev evs.
+Proof. exists []. split; [reflexivity|constructor]. Qed.
+
+Lemma clean_trans (a b c : world) :
+  (exists evs, w_trace b = evs ++ w_trace a /\ Forall clean_ev evs) ->
+  (exists evs, w_trace c = evs ++ w_trace b /\ Forall clean_ev evs) ->
+  exists evs, w_trace c = evs ++ w_trace a /\ Forall clean_ev evs.
+Proof.
+  intros [e1 [T1 F1]] [e2 [T2 F2]]. exists (e2 ++ e1). split; [rewrite T2, T1; now rewrite app_assoc|apply Forall_app; now split].
+Qed.
+
+Lemma frame_clean a b : frame a b -> exists evs, w_trace b = evs ++ w_trace a /\ Forall clean_ev evs.
+Proof.
+  intros F. destruct (fr_tr _ _ F) as [evs [T U]]. exists evs. split; [exact T|].
+  eapply Forall_impl; [|exact U]. intros e He. destruct e; simpl in *; tauto.
+Qed.
 
 (* a blocked acquisition blocks the whole scoped call *)
 Lemma run_scoped_rest_blocked t m s a lent body acq w w1 :
@@ -340,6 +360,7 @@ Section CallAcq.
       + intros _ x. rewrite (eff_raw _ _ _ E2), (eff_raw _ _ _ E1). cbn [raw_after].
         rewrite (shape_of_coll _ _ _ Hc). destruct (Nat.eqb n 2); reflexivity.
       + intros c' m' f' Heq _. inversion Heq; subst. rewrite (shape_of_coll _ _ _ Hc). exact Can.
+      + intros _. apply (eff_tr _ _ _ (eff_trans _ _ _ _ _ E1 E2)).
     - destruct L as [w1 R1].
       assert (Rc : run nopw t (with_key true false (raw_lock (e_fuel e) m a ;; see_all (gpoisons (gitems s)) ;; poison_result s)) w
                    = (OBlocked, w1)).
@@ -386,6 +407,7 @@ Section CallAcq2.
       + intros _ x. rewrite (eff_raw _ _ _ E2), (eff_raw _ _ _ E1). cbn [raw_after].
         rewrite (shape_of_coll _ _ _ Hc). destruct (Nat.eqb n 2); reflexivity.
       + intros c' m' f' Heq _. inversion Heq; subst. rewrite (shape_of_coll _ _ _ Hc). exact Can.
+      + intros _. apply (eff_tr _ _ _ (eff_trans _ _ _ _ _ E1 E2)).
     - assert (Rc : run nopw t (with_key true false
                   (Bind (raw_try m a)
                         (fun v => if vtrue v then see_all (gpoisons (gitems s)) ;; poison_result s else Ret (VNat 1)))) w
@@ -398,6 +420,7 @@ Section CallAcq2.
       + intros _. eapply eff_quiet; [exact E1|exact Q].
       + intros _ x. rewrite (eff_raw _ _ _ E1). reflexivity.
       + intros c' m' f' _ H. discriminate H.
+      + intros _. apply (eff_tr _ _ _ E1).
   Qed.
 
   Lemma call_acq_scoped lent body out w' :
@@ -415,6 +438,7 @@ Section CallAcq2.
       + intros _. eapply effp_quiet; [exact E2|exact Q].
       + intros _ x. rewrite (ep_raw _ _ _ _ E2). reflexivity.
       + intros c' m' f' _ H. destruct (existsb is_cpanic body); discriminate H.
+      + intros _. apply (ep_tr _ _ _ _ E2).
     - pose proof (raw_lock_all_or_wait t m (e_am e) s Ha ND (e_fuel e) w Q Hf) as L. rewrite Can in L.
       destruct L as [w1 R1]. fold a in R1.
       rewrite (run_scoped_rest_blocked _ _ _ _ _ _ _ _ _ R1) in R. inversion R; subst out w'. clear R.
@@ -445,12 +469,14 @@ Section CallAcq2.
       + intros _. eapply effp_quiet; [exact E2|exact Q1].
       + intros _ x. rewrite (ep_raw _ _ _ _ E2). reflexivity.
       + intros c' m' f' _ H. destruct (existsb is_cpanic body); discriminate H.
+      + intros _. apply (clean_trans w w1 w2); [apply (eff_tr _ _ _ E1)|apply (ep_tr _ _ _ _ E2)].
     - cbn [run] in R. inversion R; subst out w'. clear R.
       constructor; cbn [api_fin snd stop_code].
       + intros H; discriminate H.
       + intros _. exact Q1.
       + intros _ x. rewrite (eff_raw _ _ _ E1). reflexivity.
       + intros c' m' f' _ H. discriminate H.
+      + intros _. apply (eff_tr _ _ _ E1).
   Qed.
 End CallAcq2.
 
@@ -459,13 +485,15 @@ Lemma call_out_same sc t lc o w out w' :
   stop_code (snd (api_fin (sc_env sc) lc o out)) = false ->
   (forall rc, raw_after sc t lc o rc (w_raw w) = w_raw w) ->
   (forall rc, got_guard o rc = false) ->
+  (exists evs, w_trace w' = evs ++ w_trace w /\ Forall clean_ev evs) ->
   call_out sc t lc o w out w'.
 Proof.
-  intros Hr Hq Hs Ha Hg. constructor.
+  intros Hr Hq Hs Ha Hg Hc. constructor.
   - rewrite Hs. discriminate.
   - intros _. exact Hq.
   - intros _ x. rewrite Ha. apply Hr.
   - intros c m f _ H. rewrite Hg in H. discriminate H.
+  - intros _. exact Hc.
 Qed.
 
 Lemma call_Q sc t lc o p w out w' :
@@ -475,11 +503,11 @@ Lemma call_Q sc t lc o p w out w' :
 Proof.
   intros Q Hf Hg Hco Hp R. destruct o; cbn [api_prog] in Hp.
   - (* AKeyGet *) injection Hp as Hp; subst p. cbn in R. inversion R; subst out w'.
-    apply call_out_same; auto; try (now apply quiet_set_keyf).
+    apply call_out_same; auto; try (now apply quiet_set_keyf); (exists []; split; [reflexivity|constructor]).
   - (* AKeyDrop *) destruct (haskey lc); [|discriminate]. injection Hp as Hp; subst p. cbn in R. inversion R; subst out w'.
-    apply call_out_same; auto; try (now apply quiet_set_keyf).
+    apply call_out_same; auto; try (now apply quiet_set_keyf); (exists []; split; [reflexivity|constructor]).
   - (* AKeyForget *) destruct (haskey lc); [|discriminate]. injection Hp as Hp; subst p. cbn in R. inversion R; subst out w'.
-    apply call_out_same; auto.
+    apply call_out_same; auto; (exists []; split; [reflexivity|constructor]).
   - (* AAcquire *)
     destruct (coll (sc_env sc) c) as [s|] eqn:Hc; [|discriminate]. destruct (haskey lc); [|discriminate].
     destruct (Hco c m f eq_refl s Hc) as [Ha ND].
@@ -497,6 +525,7 @@ Proof.
     + intros _. apply quiet_set_keyf. eapply eff_quiet; eauto.
     + intros _ x. cbn [set_keyf w_raw raw_after]. rewrite G. cbn [g_mode g_items]. apply (eff_raw _ _ _ E1).
     + intros c m f X. discriminate X.
+    + intros _. apply (eff_tr _ _ _ E1).
   - (* AGuardUnlock *)
     destruct (guard lc) as [[gm items]|] eqn:G; [|discriminate]. injection Hp as Hp; subst p. cbn [g_mode g_items] in R.
     destruct (Hg gm items G) as [ND H].
@@ -506,19 +535,20 @@ Proof.
     + intros _. eapply eff_quiet; eauto.
     + intros _ x. cbn [raw_after]. rewrite G. cbn [g_mode g_items]. apply (eff_raw _ _ _ E1).
     + intros c m f X. discriminate X.
+    + intros _. apply (eff_tr _ _ _ E1).
   - (* AGuardForget *)
     destruct (guard lc); [|discriminate]. injection Hp as Hp; subst p. cbn in R. inversion R; subst out w'.
-    apply call_out_same; auto.
+    apply call_out_same; auto; (exists []; split; [reflexivity|constructor]).
   - (* AGuardRead *)
     destruct (guard lc) as [g|]; [|discriminate]. injection Hp as Hp; subst p.
     destruct (run_cs_prog t (g_mode g) (g_items g) (CRead pos) w) as [v [w1 [R1 F1]]]. cbn [is_cpanic cs_prog] in R1.
     rewrite R1 in R. inversion R; subst out w'.
-    apply call_out_same; auto; [apply (fr_raw _ _ F1)|eapply frame_quiet; eauto].
+    apply call_out_same; auto; [apply (fr_raw _ _ F1)|eapply frame_quiet; eauto|now apply frame_clean].
   - (* AGuardWrite *)
     destruct (guard lc) as [g|]; [|discriminate]. injection Hp as Hp; subst p.
     destruct (run_cs_prog t (g_mode g) (g_items g) (CWrite pos) w) as [v [w1 [R1 F1]]]. cbn [is_cpanic cs_prog] in R1.
     rewrite R1 in R. inversion R; subst out w'.
-    apply call_out_same; auto; [apply (fr_raw _ _ F1)|eapply frame_quiet; eauto].
+    apply call_out_same; auto; [apply (fr_raw _ _ F1)|eapply frame_quiet; eauto|now apply frame_clean].
   - (* APanic *)
     destruct (guard lc) as [[gm items]|] eqn:G.
     + injection Hp as Hp; subst p. cbn [g_mode g_items] in R. destruct (Hg gm items G) as [ND H].
@@ -528,6 +558,7 @@ Proof.
       * intros _. apply quiet_set_keyf. eapply effp_quiet; eauto.
       * intros _ x. cbn [set_keyf w_raw raw_after]. rewrite G. cbn [g_mode g_items]. apply (ep_raw _ _ _ _ E1).
       * intros c m f X. discriminate X.
+      * intros _. apply (ep_tr _ _ _ _ E1).
     + injection Hp as Hp; subst p.
       assert (Rr : run nopw t (Bind (with_key false (haskey lc) skip) (fun _ => Throw)) w =
                    (OPanic, if haskey lc then set_keyf w t false else w)).
@@ -537,16 +568,17 @@ Proof.
       * intros _. destruct (haskey lc); [now apply quiet_set_keyf|exact Q].
       * intros _ x. cbn [raw_after]. rewrite G. destruct (haskey lc); reflexivity.
       * intros c m f X. discriminate X.
+      * intros _. destruct (haskey lc); (exists []; split; [reflexivity|constructor]).
   - (* AIsPoisoned *)
     destruct (coll (sc_env sc) c) as [[| | | | | |q s']|]; try discriminate. injection Hp as Hp; subst p.
-    cbn in R. inversion R; subst out w'. apply call_out_same; auto.
+    cbn in R. inversion R; subst out w'. apply call_out_same; auto; (exists []; split; [reflexivity|constructor]).
   - (* AClearPoison *)
     destruct (coll (sc_env sc) c) as [[| | | | | |q s']|]; try discriminate. injection Hp as Hp; subst p.
-    cbn in R. inversion R; subst out w'. apply call_out_same; auto; try (now apply quiet_set_psn).
+    cbn in R. inversion R; subst out w'. apply call_out_same; auto; try (now apply quiet_set_psn); (exists []; split; [reflexivity|constructor]).
   - (* AFmt *)
     destruct (coll (sc_env sc) c) as [s|]; [|discriminate]. injection Hp as Hp; subst p.
     destruct (fmt_quiet t s w Q) as [n [w1 [R1 [E1 _]]]]. rewrite R1 in R. inversion R; subst out w'.
-    apply call_out_same; auto; [apply (eff_raw _ _ _ E1)|eapply eff_quiet; eauto].
+    apply call_out_same; auto; [apply (eff_raw _ _ _ E1)|eapply eff_quiet; eauto|apply (eff_tr _ _ _ E1)].
 Qed.
 
 (* ---------------------------------------------------------------- other threads' holds are not disturbed *)
